@@ -125,6 +125,8 @@ fn infohash(i: u8) -> Id20 {
 
 fn imm_value(v: u8) -> Vec<u8> {
     match v {
+        8 => vec![0x68; 1256],
+        9 => vec![0x69; 1900],
         0 | 3 => b"small immutable value".to_vec(),
         6 => b"not the value of that target".to_vec(),
         7 => vec![0x65; 1001],
@@ -139,7 +141,10 @@ fn mut_value(v: u8) -> Vec<u8> {
         0 => b"a".to_vec(),
         1 => b"b".to_vec(),
         2 => vec![0x63; 1000],
-        _ => vec![0x64; 1001],
+        3 => vec![0x64; 1001],
+        // 1000 + 256 and about the largest that fits a datagram
+        4 => vec![0x65; 1256],
+        _ => vec![0x66; 1700],
     }
 }
 
@@ -148,7 +153,13 @@ fn salt_of(s: u8) -> Option<Vec<u8>> {
         0 => None,
         1 => Some(b"s".to_vec()),
         2 => Some(vec![0x73; 64]),
-        _ => Some(vec![0x74; 65]),
+        3 => Some(vec![0x74; 65]),
+        // present but empty: shares its target with the unsalted slot
+        4 => Some(vec![]),
+        // lengths that look small in 8 bits
+        5 => Some(vec![0x75; 256]),
+        6 => Some(vec![0x76; 300]),
+        _ => Some(vec![0x77; 320]),
     }
 }
 
@@ -298,6 +309,8 @@ pub struct SrvCfg {
     pub name: &'static str,
     pub alphabet: Vec<Act>,
     pub cap_values: usize,
+    /// capacity of the mutable store when it differs from the immutable one's (`cap_values`)
+    pub cap_mutable: Option<usize>,
     pub cap_hashes: usize,
     pub cap_peers: usize,
     pub veto_ip: Option<Ipv4Addr>,
@@ -363,7 +376,7 @@ impl SrvState {
                 max_info_hashes: cfg.cap_hashes,
                 max_peers_per_info_hash: cfg.cap_peers,
                 max_immutable_values: cfg.cap_values,
-                max_mutable_values: cfg.cap_values,
+                max_mutable_values: cfg.cap_mutable.unwrap_or(cfg.cap_values),
                 ..Default::default()
             };
             if let Some(ip) = veto {
@@ -393,6 +406,7 @@ impl SrvState {
         let server = Server::new(settings(cfg.veto_ip));
         let rng = sim::local_get_rng();
         let cv = cfg.cap_values;
+        let cvm = cfg.cap_mutable.unwrap_or(cfg.cap_values);
         let (ch, cp) = (cfg.cap_hashes, cfg.cap_peers);
         let prime = cfg.prime.clone();
         let mut st = SrvState {
@@ -405,7 +419,7 @@ impl SrvState {
             tokens: BTreeMap::new(),
             model: Model {
                 imm: Lru::new(cv),
-                mutable: Lru::new(cv),
+                mutable: Lru::new(cvm),
                 peers: Lru::new(ch),
                 signed: Lru::new(ch),
                 peers_per_hash: cp,
